@@ -974,6 +974,8 @@ def check_from_graphs(w, sl, inputs, op):
                     ("bstereo", src.bstereo, other.bstereo, TSm.bstereo if TSm is not None else {}, lambda k: tuple(sorted(k)))):
                 got = rv.get(fld, {})
                 for c in set(tab) | {k2 for k2 in (frozenset(x) if fld == "bstereo" else x for x in got)}:
+                    if fld == "bstereo" and c in tab and c not in src.bonds:
+                        continue      # orphan descriptor of a removed bond: not part of that structure
                     d = tab.get(c)
                     g_ = got.get(key(c))
                     if d is not None and d[2] is None:
